@@ -92,7 +92,13 @@ CFG = {
             "(`res c x`: `move || if c != 0 { Err } else { Ok(x) }`) that go Ok<->Err by signal: leaves that exist from the first render, leaves inside Show / Either "
             "branches that a later re-run creates (opened on failing content) or drops (closed while in error), a boundary under a Show / Either / element / next to other parts, "
             "several failing leaves per boundary, leaves in the rows of a <For> (`forr`: rows added and removed while in error), nested boundaries, every polling order, disposal; "
-            "a tenth of the other cases with <Suspense> (over an "
+            "a SIXTH of all generated cases are S VIEWS: <Suspense> (`sus`) and <Transition> (`tra`) over `Suspend` leaves (`aw <rid>`: `move || Suspend::new(async move { resource.await })`) that read "
+            "1-3 resources (`ares <expr>`: AsyncDerived over signals, dynamic dependencies included; every fetch stays pending until the op `resolve <rid>` completes the fetch in flight; some resources "
+            "are loaded before the mount), boundaries NESTED in each other (the inner one flipping while the outer one shows its fallback: 2/3 of the S views start with such a pair), under Show / Either / "
+            "the rows of a <For> and around them, a <Transition> at a fixed place over fixed structure; histories of 4-16 writes / completions (reloads that overlap, complete in either order, are "
+            "superseded while in flight), a disposal in an eighth; every op runs the executor to idle and the observable is the DOM without ids (`sdom=`); oracle on the real code: a FRESH mount with "
+            "resources in the same state (loaded with the same value / pending for ever), for views with a <Transition> the model only; "
+            "a tenth of the other cases with the older <Suspense> shape (over an "
             "AsyncDerived of signals, executor run to idle between writes) or the old <ErrorBoundary>-over-Either shape at the top of the view (implementation-side oracle only, "
             "the model prints `skip`); histories of 3-15 writes with `poll i` (1-3 polls of the i-th ready task) or `idle` or nothing in between, a sixth "
             "with a disposal in the middle; plus EXHAUSTIVE schedules: 12 small programs x every poll sequence of length <= 3 over ready indices 0..2 "
@@ -124,7 +130,13 @@ CFG = {
         "underHook, clearTok). The model has the semantics of the code since ffdfcd9 / 6685c08 (an error is unregistered through the hook its state was built under; ids are unique, so the register is its size): "
         "F-C04-3 / F-C04-4 in props/C04.known. Abstraction: the errors map is its size. Proved: C04_errb_effect_toggles, C04_res_balance, C04_dropped_error_unregisters, C04_errb_render "
         "(what each transition does to the register and the DOM) + a kernel-checked history; that every view with boundaries settles to the fresh render is CORRESPONDENCE ONLY so far",
-        "NOT modelled (implementation-side oracle only): Suspense; not exercised: Transition, OwnedView contexts, hydration",
+        "leptos Suspense / Transition over AsyncDerived resources AT IDLE POINTS (Model/SView.lean, a specification-level model: what the DOM shows once the executor has nothing left to run, "
+        "as a function of the signals, the state of every resource — fetch in flight / value of the last fetch that settled / written again meanwhile / signals tracked so far (an AsyncDerived "
+        "never clears its sources) — and, per <Transition>, whether its first pending episode is over (SuspenseBoundary<true>: `nth_run < 2`)): a boundary shows its fallback iff a live Suspend "
+        "below it (not below a boundary of its own) awaits a loading resource; a Transition only during its first such episode, afterwards every leaf keeps what it last resolved to. The poll-by-poll "
+        "behaviour of AsyncDerived / Suspend / EitherKeepAlive is NOT modelled here (C10 models the derived; the harness's fresh-mount oracle checks the rest on the real code). CORRESPONDENCE ONLY + the "
+        "fresh-mount oracle; class restrictions in `assumptions`",
+        "not exercised: OwnedView contexts, hydration",
     ],
     "assumptions": [
         "expressions of dynamic parts are pure functions of signals and memos (tracked reads only, no writes): the harness interprets them inside real closures",
@@ -136,6 +148,10 @@ CFG = {
         "(F-C04-2, props/C04.known; the model predicts it: class read-disposed); the untouched-nodes oracle is not applied to these views (fresh-render oracle at every idle point is)",
         "error boundaries: two defects found in this class are repaired in /repo (ffdfcd9 F-C04-3, 6685c08 F-C04-4; regression cases corpus/C04/F-C04-{3,4}-*.ops; the generator does not avoid "
         "them). Views with boundaries carry no component-local state (`sc`) in generated cases",
+        "S views (suspense): resources read signals only; a Suspend leaf lives exactly as long as its boundary (no branch / row between a boundary and its leaves — a leaf that goes away while its boundary "
+        "stays makes the boundary show its fallback during the resource's NEXT fetch although nothing below it reads the resource any more: F-C04-5, props/C04.known, corpus/C04/F-C04-5-*.ops.pending); "
+        "a <Transition> sits at a fixed place over fixed structure; no component-local state and no error boundaries in S views; the executor runs to idle after every op (partial polling of async "
+        "deriveds and Suspend tasks is C10's subject)",
         "C04_settles_full is a THEOREM: for every well-formed program of the grammar (signals and memos; static structure, dynamic leaves, "
         "`move || Either`, <Show>, <For>, nested arbitrarily, every dynamic part over signals AND memos) and every history (writes, polls in any order, "
         "idle, disposal) the DOM at an idle point is the fresh render; it stands on the reactive core's state invariant TopC (C01/C02/C09 proofs) with "
